@@ -32,10 +32,29 @@ ENCODED = ["twisted.internet.defer:Deferred._runCallbacks", "twisted.internet.de
            "twisted.internet.defer:Deferred._continuation"]
 BOUNDS = {"quick": {"n": 3, "m": 4, "k": 2, "pz": 2}, "thorough": {"n": 4, "m": 5, "k": 3, "pz": 2}}
 B = {}
-BOUNDS_TEXT = ""
-OUTSIDE = []
-ASSUMPTIONS = []
-EXPLANATION = ""
+BOUNDS_TEXT = ("3 Deferreds; program: every program of <= n ops over the full alphabet (24 op codes x 6 callback "
+               "behaviours per side); program_cbs: every program of <= m ops over {callback, errback, pause, "
+               "unpause, addCallbacks(f, g)} (15 op codes, 6 behaviours per side); scenario: 7 fixed 2-4 op "
+               "prefixes (waiting on unfired / paused / nested / shared Deferred, failed waiter, paused fired "
+               "Deferred with pending pairs) followed by every sequence of k such ops; <= pz pause() calls; fired "
+               "values v+i for every int v; each program is followed by a fixed draining epilogue (unpause all, "
+               "fire all unfired) and model and real state are compared after every single op, so shorter "
+               "programs are covered as prefixes")
+OUTSIDE = ["programs longer than the bounds (the property text speaks of ~6 Deferreds / ~20 ops): not explored",
+           "callbacks that re-enter the Deferred API (add callbacks / fire / pause from inside a callback): the "
+           "_runningCallbacks guard is not exercised",
+           "programs the documentation declares invalid are excluded: firing a Deferred twice, unpause() without "
+           "a matching pause(), a callback returning its own Deferred, a cycle of Deferreds waiting for each other",
+           "Deferred.debug / setDebugging(True), callback extra args/kwargs, chainDeferred, cancel (C03), timeouts",
+           "names are canonical (Deferreds numbered in order of first use as a target): sound because the pool "
+           "Deferreds are created identical; more than 3 Deferreds are not explored"]
+ASSUMPTIONS = ["the reference interpreter _Ref (recursive: 'when the Deferred you wait for gets a result, take it "
+               "and resume') is the specification of the documented chaining rules",
+               "op and behaviour codes outside their range denote the nearest valid code (clamping), so every "
+               "argument tuple denotes a program"]
+EXPLANATION = ("symbolic op-code programs run on three real Deferreds and, in lockstep, on a reference interpreter of "
+               "the documented chaining rules; traces (callback, side, argument), results, pause counts, pending "
+               "callback counts and _chainedTo compared after every op and after a draining epilogue")
 
 ND = 3
 
@@ -354,16 +373,17 @@ T14 = Tuple[int, int, int, int, int, int, int, int, int, int, int, int, int, int
 
 def _go(v, nops, sops, bs, acts, prefix=(), fixed=()):
     """prefix: concrete ops run first (coded 3*action+target); sops[:nops]: the symbolic ops, coded
-    3*(index into acts)+target; a value o outside 0..3*len(acts)-1 means min(max(o,0),3*len(acts)-1)"""
+    3*(index into acts)+target; a value o outside 0..3*len(acts)-1 means min(max(o,0),3*len(acts)-1).
+    Each op is decoded right before it is executed."""
     ops = list(prefix)
-    for o in sops[:nops]:
-        c = _c(o, 0, 3 * len(acts))         # concrete from here on
-        ops.append(3 * acts[c // 3] + c % 3)
-        if _pauses(ops) > B['pz'] or (not prefix and not _canon(ops)):
-            return True                     # outside the precondition
     w = _World(v, bs, fixed)
     try:
-        for i in range(len(ops)):
+        for i in range(len(prefix) + nops):
+            if i >= len(prefix):
+                c = _c(sops[i - len(prefix)], 0, 3 * len(acts))     # concrete from here on
+                ops.append(3 * acts[c // 3] + c % 3)
+                if _pauses(ops) > B['pz'] or (not prefix and not _canon(ops)):
+                    return True             # outside the precondition
             r = w.step(i, ops[i])
             if r is None:
                 return True                 # invalid (or known-finding) program: outside the precondition
@@ -467,6 +487,22 @@ def classify(harness_name, args):
     if harness_name == "program":
         return KEY_STALL if _stalls((), (), B['n'], args["ops"], args["bs"], FULL) else None
     return KEY_STALL if _stalls((), (), B['m'], args["ops"], args["bs"], CBS) else None
+
+
+_Z = (0,) * 14
+VECTORS = {
+    # d0.addCallbacks(f->d1); d0.callback; d1.callback: classic chaining on an unfired Deferred
+    "program": [(5, (21, 0, 1, 0, 0, 0), (4,) + _Z[1:]),
+                # errback, addErrback(returns value), addCallback
+                (-3, (3, 15, 12, 0, 0, 0), _Z),
+                # addBoth raising, then addErrback on the fired Deferred
+                (0, (18, 0, 15, 0, 0, 0), (1,) + _Z[1:])],
+    # pause d0, fire d0, d1.addCallbacks(f->d0), fire d1: waits for the paused Deferred, no result stealing
+    "program_cbs": [(7, (6, 0, 13, 1, 0, 0), (0, 0, 0, 0, 3) + _Z[5:]),
+                    # already fired inner Deferred: result is taken at once
+                    (7, (0, 13, 1, 6, 0, 0), (0, 0, 3) + _Z[3:])],
+    "scenario": [(k, 1, (13, 2, 0, 0, 0, 0), _Z) for k in range(7)],
+}
 
 
 def _bucket(k, lo, hi, size):
